@@ -71,6 +71,10 @@ pub struct PairCase {
     /// HTTP/2 client: DATA frames of uploads carry this much padding
     #[serde(default)]
     pub h2_padding: Option<u8>,
+    /// HTTP/2 client: uploads are padded like `h2_padding` but sent under flow control (the padding
+    /// counts against sozu's windows, which must be replenished for it too)
+    #[serde(default)]
+    pub windowed_padding: Option<u8>,
     /// names the scenario family in violation keys (so that a finding is tied to the shape that fails)
     #[serde(default)]
     pub family: Option<String>,
@@ -89,7 +93,7 @@ pub struct PairCase {
 
 impl PairCase {
     pub fn simple(front: Proto, back: Proto, xfers: Vec<Xfer>) -> PairCase {
-        PairCase { front, back, xfers, initial_window: None, max_frame_size: None, header_table_size: None, grants: Grants::Eager, upload_frame: 16384, buffer_size: 16393, shrink_window_to: None, pace_front: None, spread_upload: false, huge_conn_window: false, h1_chunk: None, h2_padding: None, shrink_after_bytes: None, no_length: false, empty_frames: false, family: None }
+        PairCase { front, back, xfers, initial_window: None, max_frame_size: None, header_table_size: None, grants: Grants::Eager, upload_frame: 16384, buffer_size: 16393, shrink_window_to: None, pace_front: None, spread_upload: false, huge_conn_window: false, h1_chunk: None, h2_padding: None, shrink_after_bytes: None, no_length: false, empty_frames: false, family: None, windowed_padding: None }
     }
 }
 
@@ -158,6 +162,9 @@ pub fn run_pair(tag: &str, case: &PairCase, prefix: Vec<u32>, profile: ChoicePro
                     hs.push(("content-length".into(), x.up.to_string()));
                 }
                 script.push(Step::H2Headers { stream: sid, headers: hs, end_stream: x.up == 0, continuation_at: None });
+            }
+            if case.windowed_padding.is_some() {
+                script.push(Step::H2PadData(case.windowed_padding));
             }
             for (i, x) in case.xfers.iter().enumerate() {
                 if x.up > 0 && (case.h2_padding.is_some() || case.empty_frames) {
